@@ -37,7 +37,9 @@ def run(c):
         "Section hypotheses of C11_fast_path_equiv: syntax.Parse of ^\\p{Lu} / ^\\p{Ll} is Concat[BeginText, CharClass] "
         "whose class equals unicode.IsUpper / IsLower (validated for every rune 0..0x10FFFF+16 on every run), "
         "IsUpper/IsLower(U+FFFD)=false; fold_rel (unicode.SimpleFold orbits) is abstract and unused by any selected path",
-        "the positional matching relation RG.Regex.Regex.m is the meaning of a syntax tree (greediness ignored: existence only)",
+        "the positional matching relation RG.Regex.Regex.m as the meaning of a syntax tree (existence of a match; greediness ignored) -- "
+        "validated on every run: an executable matcher PROVED equivalent to m (Matcher.searchb_correct) is compared with regexp on "
+        "every generated pattern (trees with surrogate literal runes excepted: Go's regexp is inconsistent with itself there)",
         "harness/cmd/c11 and hooks textmatch.VerifDescribe, ruleguard.VerifRegexpHasCaptureGroups (build tag verif)",
     ]
     c.notes += ["the regexp fallback path is regexp.Compile itself; File().Name/PkgPath.Matches use regexp.Compile directly",
@@ -159,6 +161,19 @@ def run(c):
         if lu is None:
             return
         ctor = {"contains": "MContains", "prefix": "MPrefix", "suffix": "MSuffix", "eq": "MEq"}
+        folds = next((o["table"] for o in obs if o["k"] == "folds"), []) or []
+        srng = c.rng(17)
+
+        def pick(o):
+            """inputs on which the executable matcher (proved equivalent to the relation m) is compared with regexp: short ones,
+            matching and non-matching"""
+            ins = [b64(x) for x in o["inputs"]]
+            order = sorted(range(len(ins)), key=lambda k: (len(ins[k]), k))
+            pos = [k for k in order if o["re"][k] == "1" and len(ins[k]) <= 16][:npos]
+            neg = [k for k in order if o["re"][k] == "0" and len(ins[k]) <= 16][:nneg]
+            rest = [k for k in order if len(ins[k]) <= 24 and k not in pos and k not in neg]
+            extra = srng.sample(rest, min(nextra, len(rest)))
+            return sorted(set(pos + neg + extra))
 
         def expected(o):
             k = o.get("kind")
@@ -179,7 +194,7 @@ def run(c):
         pre = "\n".join([
             "From Coq Require Import List ZArith Bool Arith.",
             "From RG.Base Require Import Outcome GoSlice.",
-            "From RG.Regex Require Import Utf8 Regex FastPath GoOps Capture.",
+            "From RG.Regex Require Import Utf8 Regex FastPath GoOps Capture Matcher.",
             "From RGW Require Import Gen_Textmatch." if gen_ok else "",
             "Import ListNotations. Local Open Scope Z_scope.",
             "Definition lu : list (Z * Z) := %s." % lu,
@@ -187,6 +202,8 @@ def run(c):
             "Definition pred (p : pred_id) (c : Z) : bool := match p with PredIsUpper => in_ranges lu c | PredIsLower => in_ranges ll c end.",
             "Definition sel_ok (s : bytes) (re : regex) (e : option matcher) : bool := "
             "match %s s re with Ok r => opt_matcher_eqb r e | Panic _ => false end." % sel_fn,
+            "Definition folds : list (Z * list Z) := [%s]." % ";".join("(%d, [%s])" % (row[0], ";".join(str(x) for x in row[1:])) for row in folds),
+            "Definition fold_rel (a c : Z) : bool := match find (fun p => fst p =? a) folds with Some (_, orb) => existsb (Z.eqb c) orb | None => false end.",
             "Definition bools_eqb (a b : list bool) : bool := (length a =? length b)%nat && forallb (fun p => Bool.eqb (fst p) (snd p)) (combine a b).",
         ])
 
@@ -210,8 +227,25 @@ def run(c):
             src.append("Definition bad_match := map (fun c => match c with (i, mt, ins, bs, ss) => i end) "
                        "(filter (fun c => match c with (i, mt, ins, bs, ss) => negb (bools_eqb (map (%s mt) ins) bs && "
                        "bools_eqb (map (%s mt) ins) ss) end) mcases)." % (mb_fn, ms_fn))
-            src.append("Definition RES := Eval vm_compute in (bad_sel, bad_cap, bad_match).")
+            # Go's regexp is itself inconsistent on literals holding surrogate runes (`^a\x{D800}$` matches "a\uFFFD" through the
+            # complete-literal-prefix path, `a\x{D800}` does not): no relation can agree with it there; such trees are skipped
+            def scalar_literals(ast):
+                for mm in pyre.finditer(r"\(Literal (?:true|false) \[([0-9;]*)\]\)", ast):
+                    if any(0xD800 <= int(x) <= 0xDFFF for x in mm.group(1).split(";") if x):
+                        return False
+                return True
+            wm = [o for o in items if o.get("re") is not None and scalar_literals(o["ast"])]
+            picks = {o["i"]: pick(o) for o in wm}
+            src.append("Definition vcases : list (Z * regex * list bytes * list bool) := [")
+            src.append(";\n".join("(%d, %s, [%s], [%s])" % (
+                o["i"], o["ast"].replace(lu, "lu").replace(ll, "ll"), ";".join(coq_bytes(b64(o["inputs"][k])) for k in picks[o["i"]]),
+                ";".join("true" if o["re"][k] == "1" else "false" for k in picks[o["i"]])) for o in wm))
+            src.append("].")
+            src.append("Definition bad_search := map (fun c => match c with (i, re, ins, bs) => i end) "
+                       "(filter (fun c => match c with (i, re, ins, bs) => negb (bools_eqb (map (fun b => searchb fold_rel re (decode b)) ins) bs) end) vcases).")
+            src.append("Definition RES := Eval vm_compute in (bad_sel, bad_cap, bad_match, bad_search).")
             src.append("Print RES.")
+            nsearch[0] += sum(len(v) for v in picks.values())
             return "\n".join(src), len(fastp)
 
         c.log("oracle compared; running the model in Coq")
@@ -231,13 +265,14 @@ def run(c):
                 "Definition bad_enc := map (fun c => fst (fst c)) (filter (fun c => match c with (i, r, e) => negb (bytes_eqb (encode r) e) end) ecases).",
                 "Definition DRES := Eval vm_compute in (bad_dec, bad_enc).", "Print DRES."])
         jobs, nfast = [], 0
+        nsearch = [0]
         for k in range(NSH):
             s, nf = shard(sel[k::NSH])
             nfast += nf
             jobs.append(("Cases_%s_%d.v" % (tag, k), s))
         if dec_src:
             jobs.append(("Cases_%s_decode.v" % tag, pre + "\n" + dec_src))
-        bsel, bcap, bmatch = [], [], []
+        bsel, bcap, bmatch, bsearch = [], [], [], []
 
         def ints(s):
             return [int(x.replace("%Z", "").strip()) for x in s.split(";") if x.strip()]
@@ -261,11 +296,11 @@ def run(c):
                 continue
             m = pyre.search(r"RES\s*=\s*\((.*?)\)\s*:\s", out, pyre.S)
             lists = pyre.findall(r"\[(.*?)\]", pyre.sub(r"\s+", " ", m.group(1))) if m else []
-            if len(lists) != 3:
+            if len(lists) != 4:
                 c.obligation("coq-eval-parse:" + fname, False, out[-2000:])
                 return
-            a, b, cc = [ints(x) for x in lists]
-            bsel += a; bcap += b; bmatch += cc
+            a, b, cc, dd = [ints(x) for x in lists]
+            bsel += a; bcap += b; bmatch += cc; bsearch += dd
         c.log("model compared")
         byi = {o["i"]: o for o in pats}
         for i in bsel:
@@ -280,12 +315,20 @@ def run(c):
             o = byi[i]
             c.fail("corr", "the regenerated matcher differs from Match/MatchString on some input", input={"pattern": repr(b64(o["pat"]))},
                    observed={"kind": o.get("kind"), "Match": o["tm"], "MatchString": o["tms"]})
+        for i in bsearch:
+            o = byi[i]
+            c.fail("corr", "the executable matcher (proved equivalent to the matching relation of the theorems) disagrees with regexp: the "
+                   "relation is not Go's semantics on this pattern", input={"pattern": repr(b64(o["pat"])), "tree": o["ast"][:300]},
+                   observed={"regexp": o["re"][:40]})
+        c.count(nsearch[0])
+        c.coverage["relation_vs_regexp_cases"] = c.coverage.get("relation_vs_regexp_cases", 0) + nsearch[0]
         c.coverage["model_vs_impl_selection_cases"] = c.coverage.get("model_vs_impl_selection_cases", 0) + len(sel)
         c.coverage["model_vs_impl_matcher_patterns"] = c.coverage.get("model_vs_impl_matcher_patterns", 0) + nfast
         for o in [x for x in sel if x.get("kind") != "regexp"][:3] + [x for x in sel if x.get("kind") == "regexp"][5:7]:
             c.sample({"pattern": repr(b64(o["pat"])), "matcher": o.get("kind"), "literal": repr(b64(o.get("lit_b"))),
                       "inputs": len(o.get("inputs") or []), "regexp_matches": (o.get("re") or "").count("1")})
 
+    npos, nneg, nextra = (4, 6, 3) if not thorough else (8, 12, 10)
     nrand, nengine = (300, 40) if not thorough else (6000, 160)
     compare(observe(nrand, nengine, c.seed), "main")
 
